@@ -133,6 +133,7 @@ OsWhy(ev) ==
         Chk("os: mmap result not page aligned", ev.a # 0 /\ ev.a % page = 0 /\ ev.n > 0)
    \cup Chk("os: mmap result overlaps a live mapping", \A m \in maps : ~Ov(m, ev.a, PageUp(ev.n)))
    \cup Chk("os: mmap of a descriptor that is not open", ev.fd = -1 \/ ev.fd \in DOMAIN fds)
+   ELSE IF ev.fn \in {"memfd", "shm_open", "open"} /\ ev.ok THEN Chk("os: new descriptor equals a descriptor that is still open", ev.fd \notin DOMAIN fds)
    ELSE IF ev.fn = "mprotect" /\ ev.ok THEN Chk("os: mprotect of unmapped pages succeeded", Mapped(maps, ev.a, ev.n))
    ELSE IF ev.fn = "ftruncate" /\ ev.ok THEN Chk("os: ftruncate of a descriptor that is not open", ev.fd \in DOMAIN fds)
    ELSE IF ev.fn = "close" THEN Chk("close of a descriptor the component does not own (double close)", ev.fd \in DOMAIN fds)
